@@ -94,6 +94,22 @@ def parse(path):
                 funcs[key] = cur
                 blk = None
                 continue
+            if ln.startswith("const ") and ln.endswith("= {"):
+                mp = re.match(r"^const (.+::promoted\[\d+\]): (.+) = \{$", ln)
+                if mp:
+                    cur = Func(mp.group(1), ln)
+                    cur.locals["_0"] = mp.group(2).strip()
+                    funcs.setdefault(mp.group(1), cur)
+                    blk = None
+                    continue
+            if ln.endswith("= {") and not ln.startswith((" ", "fn ", "const ", "static ")):
+                mp = re.match(r"^(.+\{constant#\d+\}): (.+) = \{$", ln)
+                if mp:
+                    cur = Func(mp.group(1), ln)
+                    cur.locals["_0"] = mp.group(2).strip()
+                    funcs.setdefault(mp.group(1), cur)
+                    blk = None
+                    continue
             if cur is None:
                 continue
             if ln == "}":
